@@ -236,6 +236,12 @@ impl NetSpec {
                 return false;
             }
         }
+        // every variable must be mentioned somewhere in the aeon text
+        for i in 0..self.n() {
+            if self.funcs[i].is_none() && !self.regs.iter().any(|r| r.src == i || r.dst == i) {
+                return false;
+            }
+        }
         // same symbol must be used with one arity
         let mut sym = BTreeMap::new();
         for f in self.funcs.iter().flatten() {
@@ -596,4 +602,93 @@ pub fn core_family() -> Vec<(&'static str, NetSpec)> {
         // zero-arity parameter shared by two variables
         ("zer2", spec("a -?? a; b -?? b; $a: a & k; $b: !b | k")),
     ]
+}
+
+/// `N_all2` (DESIGN §2.1): all 2-variable networks of a grammar — each of the 4 possible
+/// regulations absent or present with sign in {+,-,?} x observable in {yes,no}; per variable:
+/// implicit, or an explicit expression over its regulators, or an uninterpreted function of them.
+pub fn all2_specs() -> Vec<NetSpec> {
+    let vars = vec!["a".to_string(), "b".to_string()];
+    let reg_opts: Vec<Option<(Sign, bool)>> = vec![
+        None,
+        Some((Sign::Pos, true)),
+        Some((Sign::Neg, true)),
+        Some((Sign::Unk, true)),
+        Some((Sign::Pos, false)),
+        Some((Sign::Neg, false)),
+        Some((Sign::Unk, false)),
+    ];
+    let fun_opts = |t: usize, regs: &[usize]| -> Vec<Option<Expr>> {
+        let v = Expr::Var;
+        let sym = if t == 0 { "f" } else { "g" };
+        let mut o: Vec<Option<Expr>> = vec![None];
+        match regs.len() {
+            0 => {
+                o.push(Some(Expr::Const(true)));
+                o.push(Some(Expr::Const(false)));
+            }
+            1 => {
+                let x = regs[0];
+                o.push(Some(v(x)));
+                o.push(Some(Expr::not(v(x))));
+                o.push(Some(Expr::Call(sym.into(), vec![x])));
+                o.push(Some(Expr::Call("f".into(), vec![x])));
+            }
+            _ => {
+                let (x, y) = (regs[0], regs[1]);
+                o.push(Some(Expr::bin('&', v(x), v(y))));
+                o.push(Some(Expr::bin('|', v(x), v(y))));
+                o.push(Some(Expr::bin('^', v(x), v(y))));
+                o.push(Some(Expr::bin('&', v(x), Expr::not(v(y)))));
+                o.push(Some(Expr::bin('|', Expr::not(v(x)), v(y))));
+                o.push(Some(Expr::bin('=', v(x), v(y))));
+                o.push(Some(Expr::Call(sym.into(), vec![x, y])));
+                o.push(Some(Expr::bin('&', Expr::Call("f".into(), vec![x]), v(y))));
+            }
+        }
+        o.dedup();
+        o
+    };
+    let mut out = vec![];
+    for code in 0..7usize.pow(4) {
+        let mut c = code;
+        let mut regs = vec![];
+        for (src, dst) in [(0usize, 0usize), (1, 0), (0, 1), (1, 1)] {
+            if let Some((sign, observable)) = reg_opts[c % 7] {
+                regs.push(Reg { src, dst, sign, observable });
+            }
+            c /= 7;
+        }
+        let r0: Vec<usize> = regs.iter().filter(|r| r.dst == 0).map(|r| r.src).collect();
+        let r1: Vec<usize> = regs.iter().filter(|r| r.dst == 1).map(|r| r.src).collect();
+        for f0 in fun_opts(0, &r0) {
+            for f1 in fun_opts(1, &r1) {
+                let s = NetSpec { vars: vars.clone(), regs: regs.clone(), funcs: vec![f0.clone(), f1.clone()] };
+                if s.well_formed() && s.param_bits() <= 8 {
+                    out.push(s);
+                }
+            }
+        }
+    }
+    out
+}
+
+/// Semantic signature used to de-duplicate networks: the sorted multiset of the valid colours'
+/// transition systems plus whether some parameter valuation is excluded.
+pub fn signature(spec: &NetSpec) -> Option<(Vec<Vec<Vec<usize>>>, bool)> {
+    let interps = spec.all_interps();
+    let mut ts = vec![];
+    let mut invalid = false;
+    for i in &interps {
+        if spec.is_valid(i) {
+            ts.push(spec.transition_system(i).succ);
+        } else {
+            invalid = true;
+        }
+    }
+    if ts.is_empty() {
+        return None;
+    }
+    ts.sort();
+    Some((ts, invalid))
 }
